@@ -516,6 +516,57 @@ theorem subst_constants_sound {α : Type} (I : Interp α) (d : List (Sym × Int)
         simp [St.exec, this, hρ x c hm]
     · intro t ht; exact hdefs t (List.mem_cons_of_mem _ ht)
 
+/-- **Which symbols replace_non_random_rvs substitutes**: exactly the parameters and random
+    variables of distributions *all* of whose parameters are fixed to zero. -/
+theorem non_random_syms_spec (zf : List Sym) (dists : List Dist) (x : Sym) :
+    x ∈ nonRandomSyms zf dists ↔
+      ∃ d ∈ dists, (∀ p ∈ d.params, p ∈ zf) ∧ (x ∈ d.params ∨ x ∈ d.rvs) := by
+  simp only [nonRandomSyms, removedDists, List.mem_flatMap, List.mem_filter, Dist.allZeroFix,
+    List.all_eq_true, List.contains_eq_mem, decide_eq_true_eq, List.mem_append]
+  constructor
+  · rintro ⟨d, ⟨hd, hz⟩, hx⟩; exact ⟨d, hd, hz, hx⟩
+  · rintro ⟨d, hd, hz, hx⟩; exact ⟨d, ⟨hd, hz⟩, hx⟩
+
+/-- **A random variable with variability is never replaced**: if the (only) distribution `x`
+    belongs to has a parameter that is not fixed to zero — e.g. a joint block whose covariance
+    alone is fixed to 0 — `x` is not substituted. -/
+theorem random_rv_not_replaced (zf : List Sym) (dists : List Dist) (x : Sym)
+    (h : ∀ d ∈ dists, (x ∈ d.params ∨ x ∈ d.rvs) → ∃ p ∈ d.params, p ∉ zf) :
+    x ∉ nonRandomSyms zf dists := by
+  rw [non_random_syms_spec]
+  rintro ⟨d, hd, hz, hx⟩
+  obtain ⟨p, hp, hnz⟩ := h d hd hx
+  exact hnz (hz p hp)
+
+/-- **replace_non_random_rvs preserves the model function** on every environment the
+    distributions allow: where the random variables (and parameters) of the all-zero-fixed
+    distributions are 0, the rewritten statements compute the same environment. -/
+theorem replace_non_random_rvs_sound {α : Type} (I : Interp α) (zf : List Sym) (dists : List Dist)
+    (ss : List St) (ρ : Env α)
+    (hρ : ∀ x ∈ nonRandomSyms zf dists, ρ x = I.lit 0)
+    (hdefs : ∀ s ∈ ss, ∀ y ∈ s.defs, y ∉ nonRandomSyms zf dists) :
+    run I (replaceNonRandom zf dists ss) ρ = run I ss ρ := by
+  apply subst_constants_sound
+  · intro x c hm
+    simp only [nonRandomConsts, List.mem_map, Prod.mk.injEq] at hm
+    obtain ⟨y, hy, rfl, rfl⟩ := hm
+    exact hρ y hy
+  · intro s hs y hy hd
+    apply hdefs s hs y hy
+    simp only [constSub, nonRandomConsts, Sub.dom, List.map_map, List.mem_map, Function.comp] at hd
+    obtain ⟨z, hz, rfl⟩ := hd
+    exact hz
+
+-- non-vacuity: a BLOCK(2) whose covariance alone is fixed to 0 is kept (nothing substituted);
+-- with every element fixed to 0 both etas are replaced; univariate zero variance: that eta only
+example : nonRandomSyms ["COV"] [⟨["E1", "E2"], ["V1", "COV", "V2"]⟩, ⟨["EPS"], ["SIG"]⟩] = [] := by decide
+example : nonRandomSyms ["V1", "COV", "V2"] [⟨["E1", "E2"], ["V1", "COV", "V2"]⟩, ⟨["EPS"], ["SIG"]⟩]
+    = ["V1", "COV", "V2", "E1", "E2"] := by decide
+example : replaceNonRandom ["V2"] [⟨["E1"], ["V1"]⟩, ⟨["E2"], ["V2"]⟩]
+    [.assign "CL" (.f2 "mul" (.sym "T") (.f1 "exp" (.sym "E1"))), .assign "V" (.f2 "add" (.sym "T") (.sym "E2"))]
+    = [.assign "CL" (.f2 "mul" (.sym "T") (.f1 "exp" (.sym "E1"))), .assign "V" (.f2 "add" (.sym "T") (.lit 0))] := by
+  decide
+
 /-- **Prepending `theta = value`** (replace_fixed_thetas): assignments of closed
     expressions whose value is what the environment already holds change nothing. -/
 theorem prepend_fixed_sound {α : Type} (I : Interp α) (ss : List St) (ρ : Env α) :
